@@ -63,6 +63,7 @@ func (e *Env) EE(i int) (string, error) { e.Evs = append(e.Evs, fmt.Sprintf("E%d
 func (e *Env) C(i int) bool            { k := fmt.Sprintf("C%d", i); e.Evs = append(e.Evs, k); return e.Cv[k] }
 func (e *Env) L(i int) []struct{}      { k := fmt.Sprintf("L%d", i); e.Evs = append(e.Evs, k); return make([]struct{}, e.Lv[k]) }
 func (e *Env) S() string               { e.Evs = append(e.Evs, "S"); return e.Sv }
+func (e *Env) True() bool              { return true }
 func (e *Env) G()                      { e.Evs = append(e.Evs, "G") }
 func (e *Env) GS(s string)             { e.Evs = append(e.Evs, "G") }
 func (e *Env) K(i int) string          { e.Evs = append(e.Evs, fmt.Sprintf("K%d", i)); return fmt.Sprintf("cls%d", i) }
@@ -266,7 +267,8 @@ func expand(toks []templang.Tok) []templang.Tok {
 	var out []templang.Tok
 	for _, t := range toks {
 		if t.T == "raw" {
-			out = append(out, templang.Tok{T: "open", N: t.N, G: t.G}, templang.Tok{T: "rawtext", N: t.N, G: "mustnot"}, templang.Tok{T: "close", N: t.N, G: "mustnot"})
+			el := templang.RawElement(t.N)
+			out = append(out, templang.Tok{T: "open", N: el, G: t.G}, templang.Tok{T: "rawtext", N: t.N, G: "mustnot"}, templang.Tok{T: "close", N: el, G: "mustnot"})
 			continue
 		}
 		out = append(out, t)
@@ -290,7 +292,7 @@ func match(toks []templang.Tok, items []item) (ok bool, why string) {
 			if t.T == "val" {
 				want = templang.ExprValues[t.N]
 			} else if t.T == "rawtext" {
-				want = templang.RawContents[t.N]
+				want = templang.RawRendered(t.N)
 			}
 			if it.kind != "text" || !strings.HasPrefix(it.data[c.off:], want) {
 				return false, fmt.Sprintf("%s: expected text %q, found %s %q", where, want, it.kind, it.name+it.data)
